@@ -277,6 +277,8 @@ func main() {
 		cmdGoLean(os.Args[2:])
 	case "entproto":
 		cmdEntProto(os.Args[2:])
+	case "hookconc":
+		cmdHookConc(os.Args[2:])
 	case "pure":
 		cmdPure(os.Args[2:])
 	case "sched":
